@@ -1,6 +1,11 @@
 """Abstract state of the STIR interpreter: values, memory objects, facts, frames."""
 import math
 from .terms import Lin, L, ZERO, eval_lin, eval_atom, base_atoms
+import os as _os
+import re as _re
+STRICT_WITNESS = bool(_os.environ.get('STV_STRICT_WITNESS'))
+_WIDE = _re.compile(r'\b(?:w|wo|ld|pun|ret|uninit|sw|inttoptr|gep|intr|ev|end|cpy|fill|n|len|trunc|shl|lshr|mul|xor|ov|sel|v)#\d+')
+
 
 DERIVED = ('and', 'or', 'xor', 'lshr', 'ashr', 'shl', 'mul', 'udiv', 'urem', 'mod', 'smod')
 
@@ -449,6 +454,8 @@ class State(object):
         atoms = set()
         for l in lins:
             base_atoms(l, atoms)
+        if STRICT_WITNESS and _WIDE.search(repr(lins)):
+            return None
         for a in extra_atoms:
             atoms.add(a)
         rel_facts = []
